@@ -28,14 +28,15 @@ import (
 
 func TestMain(m *testing.M) { ev.Main(m) }
 
-// Payload is the representative bindable struct.
+// Payload is the representative bindable struct.  The query tags differ from the form tags on purpose: a binder that
+// decodes one source with the tag names of another (or lets the query string leak into a body bind) cannot succeed.
 type Payload struct {
 	XMLName xml.Name `xml:"payload" json:"-" form:"-" query:"-"`
-	Age     int      `query:"age" form:"age" json:"age" xml:"age"`
-	Name    string   `query:"name" form:"name" json:"name" xml:"name" validate:"required"`
-	Active  bool     `query:"active" form:"active" json:"active" xml:"active"`
-	Score   int64    `query:"score" form:"score" json:"score" xml:"score"`
-	Tags    []string `query:"tags" form:"tags" json:"tags" xml:"tags"`
+	Age     int      `query:"q_age" form:"age" json:"age" xml:"age"`
+	Name    string   `query:"q_name" form:"name" json:"name" xml:"name" validate:"required"`
+	Active  bool     `query:"q_active" form:"active" json:"active" xml:"active"`
+	Score   int64    `query:"q_score" form:"score" json:"score" xml:"score"`
+	Tags    []string `query:"q_tags" form:"tags" json:"tags" xml:"tags"`
 }
 
 func (p Payload) norm() Payload {
@@ -73,14 +74,19 @@ func genPayload(t *rapid.T, label string) Payload {
 	}
 }
 
-func values(p Payload) url.Values {
+func values(p Payload) url.Values { return valuesWith(p, "") }
+
+// queryValues encodes p under the names of the `query` tags.
+func queryValues(p Payload) url.Values { return valuesWith(p, "q_") }
+
+func valuesWith(p Payload, prefix string) url.Values {
 	v := url.Values{}
-	v.Set("age", strconv.Itoa(p.Age))
-	v.Set("name", p.Name)
-	v.Set("active", strconv.FormatBool(p.Active))
-	v.Set("score", strconv.FormatInt(p.Score, 10))
+	v.Set(prefix+"age", strconv.Itoa(p.Age))
+	v.Set(prefix+"name", p.Name)
+	v.Set(prefix+"active", strconv.FormatBool(p.Active))
+	v.Set(prefix+"score", strconv.FormatInt(p.Score, 10))
 	for _, tg := range p.Tags {
-		v.Add("tags", tg)
+		v.Add(prefix+"tags", tg)
 	}
 	return v
 }
@@ -209,7 +215,7 @@ func prop(t *rapid.T) {
 		bodyReader = iotest.DataErrReader(bodyReader)
 	}
 	ev.Class("body-reader:" + readerKind)
-	req := httptest.NewRequest(method, "/x?"+values(pQuery).Encode(), bodyReader)
+	req := httptest.NewRequest(method, "/x?"+queryValues(pQuery).Encode(), bodyReader)
 	req.ContentLength = int64(len(body))
 	if ct != "" {
 		req.Header.Set("Content-Type", ct)
@@ -322,7 +328,7 @@ func propExplicit(t *rapid.T) {
 		req = httptest.NewRequest("POST", "/x", bytes.NewReader(b))
 		bind = func(c *rux.Context, got *Payload) error { return c.BindXML(got) }
 	case "query":
-		req = httptest.NewRequest("GET", "/x?"+values(p).Encode(), nil)
+		req = httptest.NewRequest("GET", "/x?"+queryValues(p).Encode(), nil)
 		bind = func(c *rux.Context, got *Payload) error { return c.ShouldBind(got, binding.Query) }
 	default:
 		req = httptest.NewRequest("GET", "/x", nil)
